@@ -238,8 +238,8 @@ pub fn build() -> Universe {
 
     // ---- genesis chain state ------------------------------------------------
     let mut genesis = ChainData::default();
-    // coins 1..=8 exist; coin 9 ("missing") does not
-    for n in 1..=8u8 {
+    // coins 1..=8 and 10..=12 exist; coin 9 ("missing") does not
+    for n in (1..=8u8).chain(10..=12) {
         let mut coin = CompressedCoin::default();
         coin.set_owner(own);
         coin.set_amount(COIN_AMOUNT);
@@ -257,6 +257,33 @@ pub fn build() -> Universe {
     }
     .into();
     genesis.messages.insert(nonce, message.clone());
+    // a data-carrying message (its amount cannot pay fees: spenders also bring a coin)
+    let data_nonce: Nonce = 8u64.into();
+    let data_message: Message = MessageV1 {
+        sender: Default::default(),
+        recipient: own,
+        nonce: data_nonce,
+        amount: COIN_AMOUNT,
+        data: vec![1, 2, 3, 4],
+        da_height: Default::default(),
+    }
+    .into();
+    genesis.messages.insert(data_nonce, data_message);
+    let data_msg_input = || {
+        Input::message_data_predicate(
+            Default::default(),
+            own,
+            COIN_AMOUNT,
+            data_nonce,
+            Default::default(),
+            vec![1, 2, 3, 4],
+            predicate(),
+            Default::default(),
+        )
+    };
+    // a contract that exists on chain from the start
+    let contract_k0 = ContractId::from([0x77; 32]);
+    genesis.contracts.insert(contract_k0);
     let msg_input = || {
         Input::message_coin_predicate(
             Default::default(),
@@ -379,6 +406,38 @@ pub fn build() -> Universe {
         vec![],
     );
     b.add("s", tx_s);
+    // t: a join with exactly three ancestors (a -> d -> t and r -> t)
+    let tx_t = b.script(
+        vec![coin_input(UtxoId::new(id_d, 1), 10_000_000), coin_input(UtxoId::new(id_r, 0), 10_000_000)],
+        vec![],
+        3700,
+        MAX_FEE,
+        vec![],
+    );
+    b.add("t", tx_t);
+    // h2: two contract inputs, the on-chain contract K0 first and K second
+    let tx_h2 = b.script(
+        vec![
+            Input::contract(UtxoId::new(TxId::from([0x76; 32]), 0), Default::default(), Default::default(), Default::default(), contract_k0),
+            Input::contract(UtxoId::new(id_g, 0), Default::default(), Default::default(), Default::default(), contract_k),
+            coin_input(genesis_utxo(12), COIN_AMOUNT),
+        ],
+        vec![
+            Output::contract(0, Default::default(), Default::default()),
+            Output::contract(1, Default::default(), Default::default()),
+        ],
+        2400,
+        MAX_FEE,
+        vec![],
+    );
+    b.add("h2", tx_h2);
+    // md1 / md2 spend the same data-carrying message (and a coin each for the fee)
+    let tx_md1 =
+        b.script(vec![data_msg_input(), coin_input(genesis_utxo(10), COIN_AMOUNT)], vec![], 1900, MAX_FEE, vec![]);
+    b.add("md1", tx_md1);
+    let tx_md2 =
+        b.script(vec![data_msg_input(), coin_input(genesis_utxo(11), COIN_AMOUNT)], vec![], 2900, MAX_FEE, vec![]);
+    b.add("md2", tx_md2);
     // n: missing coin; o: wrong amount vs the chain coin; p: wrong amount vs a's output
     let tx_n = b.script(vec![coin_input(genesis_utxo(9), COIN_AMOUNT)], vec![], 1100, MAX_FEE, vec![]);
     b.add("n", tx_n);
